@@ -26,7 +26,7 @@ PROPERTY = "C12"
 LEVEL = "exploration"
 RULE = (
     "case = a pair of real searches on related word classes (relabel / redundant patterns / different "
-    "pack for the same class / JSON reload / self / unrelated); Isomorphism.check is called both ways, "
+    "pack for the same class / JSON reload / self / unrelated / the same class with and without a statistic, so that only the parameter maps of the rules differ); Isomorphism.check is called both ways, "
     "Bijection.construct once each way, the bijection is serialised and reloaded; every returned "
     "bijection is checked pointwise against the brute-force object sets of both roots for all sizes "
     "<= N. non-trivial = a bijection was returned between specifications with >= 4 rules and a size "
